@@ -52,6 +52,8 @@ M = [
  ("glue-flush-interval-40", "C01", "src/sender/mod.rs", "const BATCH_FLUSH_INTERVAL_MS: u64 = 15;", "const BATCH_FLUSH_INTERVAL_MS: u64 = 40;"),
  ("glue-housekeeping-3s", "C14", "src/sender/mod.rs", "pub const HOUSEKEEPING_INTERVAL_MS: u64 = 1000;", "pub const HOUSEKEEPING_INTERVAL_MS: u64 = 3000;"),
  ("glue-uplink-arm-no-handle", "C09", "src/sender/mod.rs", "                        if let Some(packet) = packet {\n                            handle_uplink_packet(", "                        if let Some(packet) = packet.filter(|p| p.bytes.len() != 44) {\n                            handle_uplink_packet("),
+ ("glue-sighup-single-ip-dropped", "C19", "src/sender/mod.rs", "                        new_ips: Some(ips),\n", "                        new_ips: Some(ips).filter(|i: &SmallVec<IpAddr, 4>| i.len() > 1),\n"),
+ ("glue-housekeeping-clock-ahead", "C08", "src/sender/mod.rs", "                            classic,\n                            srtla_core::utils::now_ms(),\n                            &mut all_failed_at,\n                            &mut reader_handles,\n                            &packet_tx,\n                        ).await {", "                            classic,\n                            srtla_core::utils::now_ms() + 4500,\n                            &mut all_failed_at,\n                            &mut reader_handles,\n                            &packet_tx,\n                        ).await {"),
  ("c20-prune-inverted", "C20", "src/subscriptions.rs", "entries.retain(|e| !to_prune.contains(&e.id));", "entries.retain(|e| to_prune.contains(&e.id));"),
 ]
 
@@ -59,12 +61,25 @@ def sh(cmd, **kw):
     return subprocess.run(cmd, shell=True, capture_output=True, text=True, **kw)
 
 def main():
-    want = sys.argv[1:]
+    global R
+    want = [a for a in sys.argv[1:] if not a.startswith("--")]
+    isolated = "--isolated" in sys.argv
+    repo, runsh = "/repo", "/verif/run.sh"
+    if isolated:
+        # scratch worktree of /repo and scratch copy of the simulator (paths rewritten), so that the
+        # suite can run while /repo and /verif/sim are in use; both are removed at the end
+        repo, mv = "/tmp/mut_repo", "/tmp/mut_verif"
+        sh(f"git -C /repo worktree remove --force {repo}; rm -rf {repo} {mv}; git -C /repo worktree prune")
+        sh(f"git -C /repo worktree add --detach {repo} HEAD")
+        sh(f"mkdir -p {mv} && rsync -a --exclude target /verif/sim {mv}/ && cp /verif/run.sh {mv}/")
+        sh(f"sed -i 's#\"/repo#\"{repo}#g' {mv}/sim/Cargo.toml {mv}/sim/src/main.rs")
+        R = repo + "/"
+        runsh = mv + "/run.sh"
     results = []
     for name, prop, f, old, new in M:
         if want and not any(w in name for w in want):
             continue
-        sh("git -C /repo checkout -- .")
+        sh(f"git -C {repo} checkout -- .")
         p = R + f
         s = open(p).read()
         if old not in s:
@@ -74,14 +89,16 @@ def main():
         open(p, "w").write(s.replace(old, new, 1))
         env = dict(os.environ, VERIF_EVIDENCE_DIR="/tmp/ev", VERIF_REPLAY_DIR="/tmp/ev", CARGO_NET_OFFLINE="true")
         t = time.time()
-        r = subprocess.run(["/verif/run.sh", prop, "quick"], capture_output=True, text=True, env=env)
+        r = subprocess.run([runsh, prop, "quick"], capture_output=True, text=True, env=env)
         dt = time.time() - t
         line = [l for l in r.stdout.splitlines() if l.startswith("violation:")]
         verdict = {0: "MISSED", 1: "caught", 2: "HARNESS-ERROR"}.get(r.returncode, str(r.returncode))
         results.append((name, prop, verdict))
         print(f"{name:40s} {prop} {verdict:14s} {dt:5.1f}s {line[0][:160] if line else r.stdout.strip().splitlines()[-1][:160] if r.stdout.strip() else ''}", flush=True)
-        sh("git -C /repo checkout -- .")
-    sh("git -C /repo checkout -- .")
+        sh(f"git -C {repo} checkout -- .")
+    sh(f"git -C {repo} checkout -- .")
+    if isolated:
+        sh(f"git -C /repo worktree remove --force {repo}; rm -rf /tmp/mut_verif; git -C /repo worktree prune")
     missed = [r for r in results if r[2] != "caught"]
     print(f"\n{len(results) - len(missed)}/{len(results)} caught; not caught: {missed}")
 
